@@ -299,8 +299,8 @@ def gen_model(rng, i):
 def gen_cases(ctx):
     for inp in ctx.corpus():
         yield inp
-    no = ctx.n(2600, 60000)
-    nm = ctx.n(260, 5000)
+    no = ctx.n(4000, 60000)
+    nm = ctx.n(400, 5000)
     for i in range(max(no, nm)):
         if i < nm:
             yield gen_model(ctx.rng("model", i), i)
@@ -363,7 +363,7 @@ def in_regime(inp):
         ks = [bl[0]["s"][a] / diam[a] for a in range(nd)]
         if max(ks) - min(ks) > 2e-4:
             return False
-    return max(amps) <= AMP_RATIO[pre] * min(amps) * (1 + 1e-6)
+    return max(amps) <= AMP_RATIO[pre] * min(amps) * (1 + 1e-4)     # amplitudes are rounded to 6 digits
 
 
 def run_oracle(ctx, inp):
